@@ -232,6 +232,23 @@ func (sn *stateNil) nilableOrigin(v ssa.Value, depth int) (string, bool) {
 	return "", false
 }
 
+// hasDerivedField: t is (a pointer to) a data-model struct with a field initialised from a getter nil by construction.
+func (sn *stateNil) hasDerivedField(t types.Type) bool {
+	if !isModelStruct(t) {
+		return false
+	}
+	st, ok := derefType(t).Underlying().(*types.Struct)
+	if !ok {
+		return false
+	}
+	for i := 0; i < st.NumFields(); i++ {
+		if _, ok := sn.derived[wFieldKey(t, i)]; ok {
+			return true
+		}
+	}
+	return false
+}
+
 // Pure: every function the call may reach is a pure pointer getter.
 func (sn *stateNil) Pure(c *ssa.Call) bool {
 	callees := sn.p.Callees(c)
